@@ -290,6 +290,30 @@ def huge_stop(ctx, tmpdir):
     check_run(ctx, dict(case, v=[1, 0, 1], note=f"{nblocks} one-sample blocks"), built[0], res, tmpdir)
 
 
+def lagging_observer_stop(ctx, tmpdir):
+    """the stop arrives while an observer is more than a thousand detections behind, and everybody else's timed waits expire
+    before it moves: nothing may be dropped on the way to a slow consumer, and it still has to be told to stop"""
+    from ..sched import strategies as SS
+
+    rng = ctx.rng("lagging-observer")
+    nblocks = rng.choice((1300, 2300, 4200))
+    case = P.small_pipeline_case(rng, 4, ["rec"], False)
+    case.update(block=1, w=1 / 8, rate=8, width=1, channels=1, thr=20.0, min_len=1, max_len=1, max_sil=0, partial=0)
+    case["v"] = [1] * nblocks
+    case["stop"] = {"after_reads": nblocks - rng.randint(5, 60), "extra_steps": 0}
+    case["strategy"] = "starve(observer, impatient)"
+    built = AC.build_audio(case)
+    if built is None:
+        return
+    P.clean_dir(tmpdir)
+    res = P.run_pipeline(case, built[0], tmpdir, strategy=SS.Starve(rng.getrandbits(32), timeout_budget=100000, victim=1, impatient=True))
+    ctx.count("lagging_observer_stop_runs")
+    ctx.count("scheduled_runs")
+    ctx.maxi("observer_backlog_at_some_point", res.sched.max_queue_depth)
+    ctx.case(stable_hash(["lagging-observer-stop", nblocks, res.sched.steps]), True)
+    check_run(ctx, dict(case, v=[1, 1, 1], note=f"{nblocks} one-sample blocks, one detection each"), built[0], res, tmpdir)
+
+
 def unencodable_stop(ctx, tmpdir):
     """-O rec.ogg with no encoder installed, stopped mid-stream: the wav that was written must outlive the worker objects."""
     import gc
@@ -476,6 +500,8 @@ def run_shard(ctx):
             huge_stop(ctx, tmpdir)
         if ctx.shard == 9:
             unencodable_stop(ctx, tmpdir)
+        if ctx.shard in (5, 13) or ctx.tier == "thorough":
+            lagging_observer_stop(ctx, tmpdir)
         if ctx.shard in (3, 12) or ctx.tier == "thorough":
             # stops in streams whose blocks look like internal messages (the text "STOP_PROCESSING" as 15 bytes of audio)
             from . import c13 as C13
@@ -560,7 +586,7 @@ def inconclusive(merged, tier):
     c = merged["counters"]
     need = ["scheduled_runs", "stop_points_enumerated", "streams_with_every_stop_point_covered", "stops_before_stream_end",
             "stops_with_a_read_in_flight", "observer_logs_checked", "saved_streams_checked", "joiner_files_checked",
-            "line_mode_runs", "instruction_mode_runs", "all_module_line_mode_runs", "sigint_children_checked", "timeouts_fired", "systematic_schedules", "systematic_pipelines_fully_enumerated", "stops_after_an_injected_source_fault", "stops_over_an_overlapping_reader", "stops_in_streams_with_blocks_that_look_like_internal_messages", "lagging_saver_runs", "huge_stop_runs", "unencodable_stop_runs"]
+            "line_mode_runs", "instruction_mode_runs", "all_module_line_mode_runs", "sigint_children_checked", "timeouts_fired", "systematic_schedules", "systematic_pipelines_fully_enumerated", "stops_after_an_injected_source_fault", "stops_over_an_overlapping_reader", "stops_in_streams_with_blocks_that_look_like_internal_messages", "lagging_saver_runs", "lagging_observer_stop_runs", "huge_stop_runs", "unencodable_stop_runs"]
     out = [f"monitor never observed {k}" for k in need if c.get(k, 0) == 0]
     if c.get("inconclusive_runs", 0) > max(3, c.get("scheduled_runs", 0) // 50):
         out.append(f"{c['inconclusive_runs']} runs hit a step/wall cap or the sigint driver's watchdog")
